@@ -46,6 +46,8 @@ func runC05(c *Ctx) {
 	c.Rule("C05.R2", "non-nil returned hosts originate from the balancer's own host set / scheduler", 8)
 	c.Rule("C05.R3", "host set fields write-once; snapshot published by one atomic store of a fresh literal", 8)
 	c.Rule("C05.R4", "scan loops cover `total` slots before returning nil", 4)
+	c.Rule("C05.R5", "a composite balancer returns no host only after its fallback was consulted", 3)
+	defer c05Composite(c)
 	c.Assumptions = append(c.Assumptions,
 		"Health() observed true earlier on the path counts as healthy (a concurrent flip after the check is outside the clause)",
 		"no reflection/unsafe in the balancers",
